@@ -128,13 +128,18 @@ def gen_plan(rng, uberjob, rec, ncalls, failing_frac=0.0, exc_kinds=("Exception"
             m_, n_ = rng.choice([1, 2, 2, 3]), rng.choice([1, 2, 2])
             ps = rng.sample(range(len(calls) - 1), min(m_, len(calls) - 1))
             gate = plan.lit("gate")
-            for j in ps:
-                plan.add_dependency(calls[j], gate)
             succ = [i] + ([rng.randrange(max(ps) + 1, len(calls)) for _ in range(n_ - 1)] if max(ps) + 1 < len(calls) else [])
+            consumer_first = rng.random() < 0.5          # the order in which the user wires the gate must not matter
+            if not consumer_first:
+                for j in ps:
+                    plan.add_dependency(calls[j], gate)
             for t in set(succ):
                 if t > max(ps):
                     plan.add_dependency(gate, calls[t])
                     deps[t] |= set(ps)
+            if consumer_first:
+                for j in ps:
+                    plan.add_dependency(calls[j], gate)
     return plan, calls, deps, failing
 
 
@@ -175,6 +180,8 @@ def run_plan_case(ctx, uberjob, rng, props, found, barrier_width=None):
     scheduler = rng.choice([None, "default", "random"])
     # retry only matters for calls that fail (those are counted by C10's retry grids): with no failing call every call runs once
     retry = rng.choice([None, None, 2, 3]) if not failing else None
+    # a transform_physical that changes nothing (returns what it got / a copy of it) must change nothing
+    transform = rng.choice([None, None, lambda pl, out: (pl, out), lambda pl, out: (pl.copy(), out)])
     case = {"ncalls": ncalls, "retry": retry, "deps": [sorted(d) for d in deps], "failing": sorted(failing), "output": outkind,
             "wanted": sorted(wanted), "workers": workers, "max_errors": max_errors, "scheduler": scheduler, "exc": list(exc_kinds)}
     before = set(threading.enumerate())
@@ -183,7 +190,7 @@ def run_plan_case(ctx, uberjob, rng, props, found, barrier_width=None):
     def target():
         try:
             box["o"] = ("returned", uberjob.run(plan, output=output, max_workers=workers, max_errors=max_errors,
-                                                scheduler=scheduler, progress=None, retry=retry))
+                                                scheduler=scheduler, progress=None, retry=retry, transform_physical=transform))
         except uberjob.CallError as e:
             box["o"] = ("raised", e)
         except BaseException as e:  # noqa
